@@ -188,8 +188,7 @@ def run_varying(ctx, case):
             elif entry == "runner_combos":
                 ds = xyzpy.Runner(fn, var_names=None).run_combos(gens.spell_combos(combos, case["combo_spelling"]), **opts)
             elif entry == "runner_cases":
-                # (run_cases forwards to case_runner_to_ds(parse=False): sub-grids in parsed form)
-                ds = xyzpy.Runner(fn, var_names=None).run_cases(cs, **({"combos": tuple((a, list(v)) for a, v in subg)} if subg else {}), **opts)
+                ds = xyzpy.Runner(fn, var_names=None).run_cases(cs, **({"combos": {a: list(v) for a, v in subg}} if subg else {}), **opts)
             else:
                 ds = xyzpy.label(var_names=None)(fn).run_combos(gens.spell_combos(combos, case["combo_spelling"]), **opts)
     except Exception as e:
